@@ -7,10 +7,13 @@ RULE = ('distinct = distinct abstract design (hash of the AD); non-trivial = at 
 
 
 def run(rep, tier, seed):
-    rep.explanation = 'bounded stand-in only: sole-reference of every reachable non-leaf instance, independent elaboration before/after, Inv, fresh names in the original library, idempotence'
+    rep.explanation = ('bounded stand-in only: sole-reference of every reachable non-leaf instance, independent elaboration before/after, Inv, fresh names AND fresh '
+                       'EDIF identifiers (ignoring case) in the original library, idempotence; designs are also rebuilt through construction histories that '
+                       'leave instance pin dictionaries out of port order (late / inserted / permuted ports and pins, use-before-declaration Verilog) and '
+                       'under both naming policies with left-over <name>_sdn_unique_<k> names / identifiers and several states of the suffix counter')
     rep.assumptions = ['Tier B: everything outside the stated bounds is unexplored (DESIGN.md 8.12)',
                        'oracles (canon / elab / occurrence enumeration / Inv) read public attributes only and are calibrated against an AD-level elaborator']
-    fails = _designb.run_designs(rep, PID, tier, seed, RULE, extra_bounds={'uniquify_counter': 'reset to 0 before every case (fresh-process semantics)'})
+    fails = _designb.run_designs(rep, PID, tier, seed, RULE, extra_bounds={'uniquify_counter': 'reset to 0 before every case, then advanced to c in {0,1,2,3,5} by a real warm-up uniquify call in the naming variants', 'policies': ['DEFAULT', 'EDIF'], 'variants_per_design': 'history, naming, history+naming, left-over names, left-over identifiers'})
     _designb.report_failures(rep, PID, fails)
 
 
